@@ -1,96 +1,50 @@
 /-
-  C07 — `rune` refinement, end: EOF branch, one step, the retry loop, `rune`.
+  C07 — `rune` refinement: EOF branch and one pass from `retry:`.
 -/
 import ShVerif.Proofs.C07Rune3
 namespace ShVerif.C07
 open ShVerif ShVerif.L2
 set_option linter.unusedSimpArgs false
 
-/-- the part of the spec's `runeAtEOF` after its `fillE` -/
-def atEOFTail (a : LSt) : LSt :=
-  let a := match a.buf with
-    | some (0, bp) => { a with consumed := a.consumed - bp + 1, buf := some (0, 1) }
-    | _ => a
-  { a with r := runeEOF, w := 1 }
-
-theorem runeAtEOF_eq (a : LSt) : LSt.runeAtEOF a = atEOFTail a.fillE := rfl
-
 theorem atEOF_refines {s a} (h : R s a) (hrest : a.rest = []) (hb0 : a.behind = none)
-    (hre : a.err = none → a.readErr = true) : R (St.runeAtEOF s) (atEOFTail a) := by
+    (hh : a.halted = false) : R (St.runeAtEOF s) (LSt.runeAtEOF a) := by
   have hf := h.front_nil hrest
-  unfold St.runeAtEOF atEOFTail
+  unfold St.runeAtEOF LSt.runeAtEOF
+  have hr := h.f_r
   cases he : a.err with
   | some e =>
     have hd := h.dead (by simp [he])
-    rcases hb : a.buf with _ | ⟨bl, bp⟩
-    · simp only
-      by_cases h0 : s.blen = 0
-      · simp only [h0, beq_self_eq_true, if_true]
-        destruct_R h
-        constructor <;> simp_all <;> (try assumption) <;> (try omega)
-      · have e0 : (s.blen == 0) = false := by simp [h0]
-        simp only [e0, Bool.false_eq_true, if_false]
-        destruct_R h
-        constructor <;> simp_all <;> (try assumption) <;> (try omega)
-    · have hv := h.bufV bl bp hb
-      cases bl with
-      | zero =>
-        have h0 : s.blen = 0 := hv.1
-        simp only [h0, beq_self_eq_true, if_true]
-        destruct_R h
-        constructor <;> simp_all <;> (try assumption) <;> (try omega)
-      | succ k =>
-        have e0 : (s.blen == 0) = false := by simp [hv.1]
-        simp only [e0, Bool.false_eq_true, if_false]
-        destruct_R h
-        constructor <;> simp_all <;> (try assumption) <;> (try omega)
+    have hre : a.r = runeEOF := by rw [hr]; exact hd.2.2.2
+    simp only [hre, beq_self_eq_true, if_true]
+    destruct_R h
+    r_close
   | none =>
-    have hrerr := hre he
+    have hp := h.pending_nil he hrest
     have ha := h.alive he
-    have hs : a.buf.isSome = true := by rw [h.bufS, ← h.f_readErr]; exact hrerr
-    rcases hb : a.buf with _ | ⟨bl, bp⟩
-    · rw [hb] at hs; simp at hs
-    · have hv := h.bufV bl bp hb
-      have hpn := h.errP (by rw [← h.f_readErr]; exact hrerr)
-      cases bl with
-      | zero =>
-        have h0 : s.blen = 0 := hv.1
-        simp only [h0, beq_self_eq_true, if_true]
-        destruct_R h
-        constructor <;> simp_all <;> (try assumption) <;> (try omega)
-      | succ k =>
-        have e0 : (s.blen == 0) = false := by simp [hv.1]
-        simp only [e0, Bool.false_eq_true, if_false]
-        destruct_R h
-        constructor <;> simp_all <;> (try assumption) <;> (try omega)
+    by_cases hre : a.r = runeEOF
+    · have := h.eofR he (by rw [← hr]; exact hre) hh
+      simp only [hre, beq_self_eq_true, if_true]
+      destruct_R h
+      r_close
+    · have e : (a.r == runeEOF) = false := by simp [hre]
+      simp only [e, Bool.false_eq_true, if_false]
+      have hcur : s.bsp = s.back.length := h.cursor_of_ne hre
+      destruct_R h
+      r_close
 
-theorem fillE_readErr {s a} (h : R s a) (hal : a.err = none) (_hp : s.pending = []) :
-    a.fillE.readErr = true := by
-  unfold LSt.fillE
-  by_cases h1 : (a.readEOF || a.r == runeEOF) = true
-  · simp only [h1, if_true]
-    simp at h1
-    rcases h1 with h1 | h1
-    · rw [h.f_readErr]; exact h.eofE (by rw [← h.f_readEOF]; exact h1)
-    · rw [h.f_readErr]; exact (h.eofR hal (by rw [← h.f_r]; exact h1)).1
-  · have e : (a.readEOF || a.r == runeEOF) = false := by simpa using h1
-    simp only [e, Bool.false_eq_true, if_false]
-    by_cases hre : a.readErr = true <;> simp [hre]
-
-theorem runeStep_refines {s a} (bq : Nat) (h : R s a)
-    (hok : (LSt.runeStep bq a).st.ok = true) :
+theorem runeStep_refines {s a} (bq : Nat) (h : R s a) (hh : a.halted = false) :
     ∃ st, St.runeStep bq s = .ok st ∧ StepR st (LSt.runeStep bq a) := by
   have h0 := h.forget
   have hb0 := forget_behind a
-  unfold LSt.runeStep at hok ⊢
-  simp only at hok ⊢
-  generalize a.forget = a0 at h0 hb0 hok ⊢
+  have hh0 : a.forget.halted = false := hh
+  unfold LSt.runeStep
+  simp only
+  generalize a.forget = a0 at h0 hb0 hh0 ⊢
   unfold St.runeStep
   -- the part after a byte is known to be in the buffer
   have key : ∀ (s1 : St) (b : Byte) (f : List Byte), R s1 a0 → s1.front = b :: f →
-      (LSt.runeBody b bq a0).st.ok = true →
       ∃ st, St.runeBody b bq s1 = .ok st ∧ StepR st (LSt.runeBody b bq a0) := by
-    intro s1 b f hR1 hf1 hok1
+    intro s1 b f hR1 hf1
     obtain ⟨hal, hrest⟩ := hR1.head hf1
     have hRl : R s1 { a0 with look := max a0.look 1 } := by
       apply hR1.setLook
@@ -99,41 +53,33 @@ theorem runeStep_refines {s a} (bq : Nat) (h : R s a)
       · left; simp [hf1] at hl ⊢; omega
       · right; exact hl
     have hbl : ({ a0 with look := max a0.look 1 } : LSt).behind = none := hb0
-    unfold LSt.runeBody at hok1 ⊢
+    have hhl : ({ a0 with look := max a0.look 1 } : LSt).halted = false := hh0
+    unfold LSt.runeBody
     unfold St.runeBody
-    simp only at hok1 ⊢
-    generalize ({ a0 with look := max a0.look 1 } : LSt) = al at hok1 hRl hbl ⊢
+    simp only
+    generalize ({ a0 with look := max a0.look 1 } : LSt) = al at hRl hbl hhl ⊢
     by_cases hb7 : b.toNat < 0x80
-    · simp only [hb7, if_true] at hok1 ⊢
-      exact runeAscii_refines b f bq hRl hbl hf1 hb7 hok1
-    · simp only [hb7, if_false] at hok1 ⊢
-      obtain ⟨s2, h2, hR2⟩ := runeDecode_refines hRl hbl hf1
+    · simp only [hb7, if_true]
+      exact runeAscii_refines b f bq hRl hbl hf1 hb7 hhl
+    · simp only [hb7, if_false]
+      obtain ⟨s2, h2, hR2⟩ := runeDecode_refines hRl hbl hf1 hhl
       exact ⟨St.Step.done s2, by simp [h2], hR2⟩
   cases hf : s.front with
   | cons b f =>
     simp only [List.isEmpty_cons, Bool.false_eq_true, if_false, bind_ok, pure_eq_ok]
     obtain ⟨hal, hrest⟩ := h0.head hf
-    rw [hrest] at hok ⊢
-    simpa [hf] using key s b f h0 hf hok
+    rw [hrest]
+    simpa [hf] using key s b f h0 hf
   | nil =>
-    obtain ⟨n, s', h1, h2, h3, h4⟩ := ensure1 h0 hb0 hf
+    obtain ⟨n, s', h1, h2, h3, h4, h5⟩ := ensure1 h0 hb0 hh0 hf
     simp only [List.isEmpty_nil, if_true, h1, bind_ok, pure_eq_ok]
     cases hr : a0.rest with
     | nil =>
       have hn : n = 0 := h3.2 hr
-      have he : a0.rest.isEmpty = true := by simp [hr]
-      simp only [he, if_true] at h2
       simp only [hn, beq_self_eq_true, if_true]
-      refine ⟨_, rfl, ?_⟩
-      rw [runeAtEOF_eq]
-      apply atEOF_refines h2 (by simpa using hr) (by simpa using hb0)
-      intro hal
-      have hal0 : a0.err = none := by simpa using hal
-      exact fillE_readErr h0 hal0 (h0.pending_nil hal0 hr)
+      exact ⟨_, rfl, atEOF_refines h2 hr hb0 hh0⟩
     | cons b t =>
-      have hn : ¬ n = 0 := fun hh => by have := h3.1 hh; simp [hr] at this
-      have he : a0.rest.isEmpty = false := by simp [hr]
-      simp only [he, Bool.false_eq_true, if_false] at h2
+      have hn : ¬ n = 0 := fun hx => by have := h3.1 hx; simp [hr] at this
       have e0 : (n == 0) = false := by simp [hn]
       simp only [e0, Bool.false_eq_true, if_false]
       have hne := h4 (by simp [hr])
@@ -144,7 +90,6 @@ theorem runeStep_refines {s a} (bq : Nat) (h : R s a)
         rw [hr] at hrest
         injection hrest with hbb _
         subst hbb
-        rw [hr] at hok
-        simpa [hf'] using key s' b f' h2 hf' hok
+        simpa [hf'] using key s' b f' h2 hf'
 
 end ShVerif.C07
